@@ -219,11 +219,14 @@ def st_shared_history(draw):
     steps = []
     n_bare = draw(st.integers(1, 2))
     for _ in range(draw(st.integers(2, 6))):
-        kind = draw(st.sampled_from(["dec", "dec", "cls", "cls", "redec", "reuse", "adopt"]))
+        kind = draw(st.sampled_from(["dec", "dec", "cls", "cls", "redec", "reuse", "adopt", "posthoc"]))
         if kind == "dec":
             steps.append(["dec", draw(st.integers(0, n_bare - 1)), draw(st.sampled_from(["require", "ensure"]))])
         elif kind == "redec":
             steps.append(["redec", draw(st.integers(0, 5)), draw(st.sampled_from(["require", "ensure"]))])
+        elif kind == "posthoc":
+            # a contract is put on the overriding method of an EXISTING sub-class: Sub.m = require|ensure(c)(Sub.m)
+            steps.append(["posthoc", draw(st.integers(0, 5)), draw(st.sampled_from(["require", "ensure"]))])
         elif kind == "adopt":
             # a wrapper made (and already called) earlier becomes the overriding method of a new sub-class
             steps.append(["adopt", draw(st.integers(0, 5)), draw(st.integers(0, 2))])
@@ -276,6 +279,7 @@ def _check_shared_history(ctx, case):
     own = {}    # name -> set of cids that may be evaluated by that definition
     expect = {}  # name -> what exactly is evaluated when every contract holds (None: not modelled)
     gspec = {}  # wrapper name -> (helper index, role, cid, decorated function)
+    subs = {}   # sub-classes (one root, helper as own override) whose method may get a contract after class creation
     roots = {}
     base = {}
     wrappers = []
@@ -354,6 +358,22 @@ def _check_shared_history(ctx, case):
             expect[name] = None
             gspec.pop(name, None)
             feats.add("stacked-on-existing-wrapper")
+        elif st_[0] == "posthoc":
+            cands = sorted(subs)
+            if not cands:
+                continue
+            sub = cands[st_[1] % len(cands)]
+            Sub = subs[sub]
+            cid = new_cid()
+            role = st_[2]
+            deco = (icontract.require(mk_cond(cid), error=_Viol(cid)) if role == "require" else
+                    icontract.ensure(mk_cond(cid, True), error=_Viol(cid)))
+            Sub.m = deco(Sub.__dict__["m"])
+            own[sub] = own[sub] | {cid}
+            base.pop(sub, None)
+            expect[sub] = None
+            subs.pop(sub)  # one post-hoc decoration per class
+            feats.add("contract-added-to-a-method-of-an-existing-sub-class")
         elif st_[0] == "adopt":
             cands = [n for n in wrappers if n in gspec]
             if not cands:
@@ -397,6 +417,8 @@ def _check_shared_history(ctx, case):
             objs["Sub%d" % si] = (lambda K: lambda x: K().m(x))(Sub)
             own["Sub%d" % si] = set(rc)
             expect["Sub%d" % si] = exp
+            if k >= 0 and r2 is None:
+                subs["Sub%d" % si] = Sub  # own function, one inherited group: may be decorated later on
             if k >= 0 and sum(1 for s in steps[:si + 1] if s[0] == "cls" and s[2] == k) >= 2:
                 feats.add("helper-installed-in-two-classes")
             if k >= 0 and (any(s[0] == "dec" and s[1] == k for s in steps[:si]) or
